@@ -159,7 +159,13 @@ def from_numpy(
     else:
         contents = []
         for name in array.dtype.names:
-            contents.append(recurse(array[name], mask))
+            if isinstance(mask, np.ndarray) and mask.dtype.names is not None:
+                # a masked structured array has one mask per field
+                contents.append(
+                    recurse(array[name], numpy.ascontiguousarray(mask[name]))
+                )
+            else:
+                contents.append(recurse(array[name], mask))
         layout = ak.layout.RecordArray(contents, array.dtype.names)
 
     return ak._util.maybe_wrap(layout, behavior, highlevel)
